@@ -23,7 +23,7 @@ WORKERS = {"quick": 4, "thorough": 16}
 CONTEXTS = ["bare", "params", "photos", "photos+params", "wrapped", "extended-daughters", "extended-params", "space-before-semicolon"]
 REQUIRED = {**{f"context:{c}": 135 for c in CONTEXTS}, "published-name-in-all-contexts": 1, "prefix-pairs-all": 1, "published-after-user-registration": 135,
             "user-name": 200, "user-name:special-char:.": 3, "user-name:special-char:+": 3, "user-name:special-char:*": 3, "user-name:special-char:(": 3,
-            "user-name:ends-in-nonword": 5, "user-name:extends-published": 20, "user-name:prefix-of-published": 20, "registration:several-calls": 20, "registered-names-second-parse": 20, "grammar-accessed-before-registration": 10, "crlf-text": 10,
+            "user-name:ends-in-nonword": 5, "user-name:extends-published": 20, "user-name:prefix-of-published": 20, "registration:several-calls": 20, "registration:published-name-among-the-new-ones": 10, "registration-after-a-refused-parse": 10, "registered-names-second-parse": 20, "grammar-accessed-before-registration": 10, "crlf-text": 10,
             "near-miss-rejected": 300, "near-miss:dot-replaced": 3, "near-miss:alias-misspelled": 5, "near-miss:alias-of-an-earlier-file": 5, "near-miss:registered-on-another-instance": 20, "alias-name-extends-model": 20}
 EXHAUSTIVE_NOTE = "all 135 published names x 8 contexts and all ordered prefix pairs are enumerated across the workers in every run"
 ASSUMPTIONS = ["labels next to model names extend them by letters, digits or '_' only (PHSP-x is, by the language's own tokenisation, PHSP with parameter -x)",
@@ -94,7 +94,33 @@ def check_accept(ctx, stmts, user_calls, label, nontrivial=True):
     if gfirst:
         ctx.hit("grammar-accessed-before-registration")
         wit["grammar_first"] = True
-    ok, res = ctx.guard("parse-supported-model", wit, snapshot.make_parser, text, None, um, True, user_calls if user_calls else None, gfirst)
+    late = bool(user_calls) and not gfirst and ctx.rng.random() < 0.25
+    if late:
+        # history: the text is parsed once before the names are registered (that parse is refused), then the names are registered and it is parsed again
+        ctx.hit("registration-after-a-refused-parse")
+        wit["parse_before_registration"] = True
+
+        def late_registration():
+            import warnings  # noqa: PLC0415
+            from decaylanguage import DecFileParser  # noqa: PLC0415
+
+            q = DecFileParser.from_string(text)
+            try:
+                with warnings.catch_warnings():
+                    warnings.simplefilter("ignore")
+                    q.parse()
+            except Exception:  # noqa: BLE001
+                ctx.hit("first-parse-refused")
+            for call in user_calls:
+                q.load_additional_decay_models(*call)
+            with warnings.catch_warnings():
+                warnings.simplefilter("ignore")
+                q.parse()
+            return q, []
+
+        ok, res = ctx.guard("parse-supported-model:registered-after-refused-parse", wit, late_registration)
+    else:
+        ok, res = ctx.guard("parse-supported-model", wit, snapshot.make_parser, text, None, um, True, user_calls if user_calls else None, gfirst)
     if not ok:
         return False
     p, _ = res
@@ -209,6 +235,13 @@ def run(ctx):
         calls = [tuple(um)] if rng.random() < 0.5 or len(um) == 1 else [tuple(um[:1]), tuple(um[1:])]
         if len(calls) > 1:
             ctx.hit("registration:several-calls")
+        if rng.random() < 0.3:
+            # a published name listed among the new ones (harmless: it is known already)
+            j = rng.randrange(len(calls))
+            c = list(calls[j])
+            c.insert(rng.randint(0, len(c)), rng.choice(models))
+            calls[j] = tuple(c)
+            ctx.hit("registration:published-name-among-the-new-ones")
         lines = []
         for u, kind in names_k:
             ctx.hit("user-name")
